@@ -200,6 +200,21 @@ d("helper-raw", _HELPER.replace("USE", "audit"), _HELPER_EXP)
 d("helper-async-wrapped", _HELPER.replace("USE", "traced(audit)"), _HELPER_EXP)
 d("helper-sync-wrapped", _HELPER.replace("USE", "passthrough(audit)"), _HELPER_EXP)
 
+d("shared-listeners-list", _machine("", extra="""
+class L:
+    def after_go(self):
+        REC.append(('L.after_go',))
+class Extra:
+    def after_go(self):
+        REC.append(('Extra.after_go',))
+SHARED = [L()]
+def INSTANTIATE(cls):
+    first = cls(listeners=SHARED)
+    first.add_listener(Extra())      # attached to `first` only
+    first.send('go')
+    return cls(listeners=SHARED)
+"""), [[None, "s1", [["L.after_go"]]], [None, "s2", [["L.after_go"]]]])
+
 STRUCT = {"states": ["s0", "s1", "s2"],
           "trans": {"s0": [["go", "s1"]], "s1": [["go", "s2"]], "s2": [["go", "s0"]]},
           "events": ["go"]}
@@ -208,8 +223,9 @@ STRUCT = {"states": ["s0", "s1", "s2"],
 class Inst:
     """One definition being driven step by step."""
 
-    def __init__(self, name):
+    def __init__(self, name, clone=False):
         self.name = name
+        self.clone = clone          # the second event is sent to a deepcopy of the machine
         self.spec = DEFS[name]
         self.rec = []
         self.ns = {"REC": self.rec}
@@ -239,7 +255,14 @@ class Inst:
         del act
 
     def send(self):
-        del self.rec[:]
+        if self.clone and len(self.obs) == 1:
+            import copy
+            try:
+                self.sm = copy.deepcopy(self.sm)
+            except Exception as e:   # noqa: BLE001
+                self.obs.append([f"EXC deepcopy {type(e).__name__}: {e}", None, []])
+                return
+        del self.rec[:]      # (resolving callbacks for the copy may read property providers)
         try:
             r = self.sm.send("go", *self.spec.get("args", ()))
         except Exception as e:   # noqa: BLE001
@@ -280,7 +303,9 @@ def interleavings(n=4, m=4):
 
 
 def run_pair(x, y, order):
-    a, b = Inst(x), Inst(y)
+    # X's second event goes to a deepcopy of X's machine (taken while Y's class - same class
+    # name - may already exist): the copy is a machine of X's class
+    a, b = Inst(x, clone=True), Inst(y)
     ia = ib = 0
     for who in order:
         if who == "X":
